@@ -301,6 +301,10 @@ class Ctx:
 
     def cond(self, c, fmt='satisfying'):
         """condition descriptor -> live Condition (stock ones are the library's own objects)"""
+        if '_range' in c:
+            kind, lo, hi = c['_range']
+            kw = {k: v for k, v in (('min', lo), ('max', hi)) if v is not None}
+            return A.val_range(**kw) if kind == 'val' else A.len_range(**kw)
         if 'all' in c:
             return Condition.all(*[self.cond(x) for x in c['all']])
         if 'any' in c:
